@@ -185,3 +185,31 @@ Proof.
   pose proof (sweep_rows_spec _ _ opacity_sweep_true c k Hc Hk) as H. unfold op_ok in H. fold v in H.
   rewrite !andb_true_iff, !orb_true_iff, !Z.leb_le, !Z.ltb_lt, !Z.eqb_eq in H. unfold is_byte in Hk. lia.
 Qed.
+
+(* ------------------------------------------------------------------ second pass: chains of apply_mask of any length (nested clip
+   paths, clip + mask + ... of nested groups), exact bytes *)
+Lemma scale_chain_le : forall ms c, is_byte c -> Forall is_byte ms -> 0 <= scale_chain c ms <= c.
+Proof.
+  induction ms as [|m r IH]; intros c Hc H; unfold scale_chain; cbn [fold_left]; [unfold is_byte in Hc; lia|].
+  inversion H as [|x l Hm Hr]; subst. destruct (scale_u8_le c m Hc Hm) as [S _].
+  pose proof (IH (scale_u8 c m) (scale_u8_byte c m Hc Hm) Hr) as I. unfold scale_chain in I. lia.
+Qed.
+Lemma scale_chain_app : forall c ms ns, scale_chain c (ms ++ ns) = scale_chain (scale_chain c ms) ns.
+Proof. intros. unfold scale_chain. apply fold_left_app. Qed.
+Lemma scale_chain_byte : forall ms c, is_byte c -> Forall is_byte ms -> is_byte (scale_chain c ms).
+Proof. intros ms c Hc H. pose proof (scale_chain_le ms c Hc H). unfold is_byte in *. lia. Qed.
+Lemma scale_chain_prefix : forall ms ns c, is_byte c -> Forall is_byte ms -> Forall is_byte ns ->
+  scale_chain c (ms ++ ns) <= scale_chain c ms.
+Proof.
+  intros ms ns c Hc Hm Hn. rewrite scale_chain_app. apply (scale_chain_le ns _ (scale_chain_byte ms c Hc Hm) Hn).
+Qed.
+Lemma scale_chain_zero : forall ms c, is_byte c -> Forall is_byte ms -> In 0 ms -> scale_chain c ms = 0.
+Proof.
+  induction ms as [|m r IH]; intros c Hc H Hin; [contradiction|].
+  inversion H as [|x l Hm Hr]; subst. unfold scale_chain. cbn [fold_left]. destruct Hin as [->|Hin].
+  - rewrite (proj2 (scale_u8_full c Hc)).
+    assert (Z0 : is_byte 0) by (unfold is_byte; lia). pose proof (scale_chain_le r 0 Z0 Hr) as I. unfold scale_chain in I. lia.
+  - apply (IH (scale_u8 c m) (scale_u8_byte c m Hc Hm) Hr Hin).
+Qed.
+Lemma lum_coef_byte : forall r g b a, is_byte (lum_mask_u8 r g b a).
+Proof. intros. unfold lum_mask_u8. apply ceil_u8_byte. Qed.
